@@ -715,3 +715,8 @@ mod tests {
         );
     }
 }
+
+// Verification hook: only the Kani compiler sets `cfg(kani)`; the harnesses live in /verif.
+#[cfg(kani)]
+#[path = "/verif/harness/incrate/wire.rs"]
+mod verif_kani;
